@@ -153,6 +153,17 @@ def correspond(ctx, corr):
         bits, d, dt, m = j
         return cc.cmd_canon(lambda: command.from_frame(ForwardFrame(bits, d), devicetype=dt,
                                                        dev_inst_map=None if m is None else DeviceInstanceTypeMapper(dict(m))))
+    # the decoded OBJECTS of a sample are kept alive to the end of the run: what a result carries (frame, text,
+    # class) is fixed when it is returned - decoding other frames afterwards does not reach back into it
+    held = []
+    for j in rng.sample(sub, min(len(sub), 1500)):
+        bits, d, dt, m = j
+        try:
+            o = command.from_frame(ForwardFrame(bits, d), devicetype=dt,
+                                   dev_inst_map=None if m is None else DeviceInstanceTypeMapper(dict(m)))
+            held.append((j, o, cc.cmd_canon(lambda: o)))
+        except Exception:   # noqa - judged by the main pass
+            pass
     first = [dec(j) for j in sub]
     order = list(range(len(sub)))
     rng.shuffle(order)
@@ -189,6 +200,41 @@ def correspond(ctx, corr):
                 corr.violate("decode:order", {"first": "dec %d %d %d -" % c, "then": "dec %d %d %d -" % t},
                              want[t], got, "the result of decoding depends on what was decoded before")
     corr.count("purity_ordered_pairs", npairs)
+    for j, o, was in held:
+        now = cc.cmd_canon(lambda: o)
+        if now != was:
+            corr.violate("decode:order", {"frame": j[:3], "kept": "the decoded object, looked at again after other "
+                                          "frames were decoded"}, was, now,
+                         "a decoded command changed after it was returned (its frame / text depend on later decoding)")
+    corr.count("purity_held_objects", len(held))
+    # ONE mapper object for the whole bus (as the library recommends), taught while frames are being decoded: the
+    # result of a decode is a function of (frame, device type, what the map says NOW), not of what the map was
+    # asked before  (strengthening after seeded round 6)
+    mlines, mgot = [], []
+    for _ in range(600 if ctx.thorough else 200):
+        mp = DeviceInstanceTypeMapper()
+        known = {}
+        for step in range(rng.randrange(2, 7)):
+            sa, inum = rng.choice([5, 0, 63, rng.randrange(64)]), rng.choice([3, 0, 31, rng.randrange(32)])
+            d = (sa << 17) | (1 << 15) | (inum << 10) | rng.randrange(1024)
+            got = cc.cmd_canon(lambda: command.from_frame(ForwardFrame(24, d), devicetype=0, dev_inst_map=mp))
+            mlines.append("dec 24 %d 0 %s" % (d, cc.map_tok(dict(known)) if known else "e"))
+            mgot.append((got, dict(known)))
+            if rng.random() < 0.7:
+                t = rng.choice([1, 2, 3, 4, 6, 32])
+                if rng.random() < 0.15 and known:
+                    mp.clear()
+                    known.clear()
+                else:
+                    mp.add_type(short_address=sa, instance_number=inum, instance_type=t)
+                    known[(sa, inum)] = t
+    mans = cc.run_model("m_cmd", mlines)
+    for line, (got, known), want in zip(mlines, mgot, mans):
+        if got != want:
+            corr.violate("decode:order", {"request": line, "mapper": "one mapper object, asked about other / the same "
+                                          "instances before and taught in between", "map now": cc.map_tok(known)},
+                         want, got, "decoding depends on what the mapper was asked before")
+    corr.count("purity_one_mapper", len(mlines))
     snap1 = registry_snapshot()
     if snap0 != snap1:
         # some class-level container of the decoding classes changed while decoding.  That is a violation only if
